@@ -193,6 +193,12 @@ async fn play(
             let ser = bincode::serialize(&a).unwrap();
             let _ = conn.h_answer_tx.send(Answer { id, success: true, complete: true, serialized: ser }).await;
             sent_answer = Some(a);
+            // requests pipelined right behind the answer: they are handled by another task of the instance than the
+            // one that checks the proof
+            for k in 1..=6u64 {
+                let _ = conn.h_query_tx.send(QueryProtocol { id: 9000 + k, query: Query::RoomList }).await;
+                tokio::task::yield_now().await;
+            }
         }
     }
     // observe what the instance does: Ready event, then ask for the room list
@@ -204,7 +210,7 @@ async fn play(
     loop {
         match tokio::time::timeout(Duration::from_millis(300), conn.h_answer_rx.recv()).await {
             Ok(Some(a)) => {
-                if a.id == 9000 && a.success {
+                if (9000..=9006).contains(&a.id) && a.success {
                     log.room_list_served = true;
                 }
                 if a.id == 9000 && a.complete {
@@ -388,7 +394,8 @@ fn run_case<'a>(ctx: &'a Ctx, case: u64, acc: &'a mut Acc) -> CaseFut<'a> {
                 let pk_bytes = SysPeer::pub_key(&dp).unwrap();
                 let pk: PublicKey = bincode::deserialize(&pk_bytes).unwrap();
                 let token = who.meeting.token(&pk);
-                for beh in [Behaviour::OtherAllowedPeersProof, Behaviour::WrongKeySignature, Behaviour::ReplayedAnswer, Behaviour::Correct] {
+                // a valid proof by the wrong key races with the serving task: tried several times
+                for beh in [Behaviour::OtherAllowedPeersProof, Behaviour::OtherAllowedPeersProof, Behaviour::OtherAllowedPeersProof, Behaviour::OtherAllowedPeersProof, Behaviour::WrongKeySignature, Behaviour::ReplayedAnswer, Behaviour::Correct] {
                     if beh != Behaviour::Correct && rng.gen_bool(0.4) {
                         continue;
                     }
